@@ -62,9 +62,16 @@ RXV_SUBCOMMAND(c06) {
 	Rng rng(args.seed, 0xc06, args.shard);
 	const uint64_t nProgs = args.cases ? args.cases : 100;
 	const uint64_t nPlace = args.num("placements", 20);
+	// the dataset extent is what the library itself allocates (observed), not what the harness derives from configuration.h:
+	// the fake dataset below ends exactly there, followed by a PROT_NONE page
+	const uint64_t dsExtent = libraryDatasetExtent();
+	if (!dsExtent) R.harnessFail("could not observe the allocation made by randomx_alloc_dataset");
+	R.count("library_dataset_extent_bytes", dsExtent);
+	if ((uint64_t)randomx_dataset_item_count() * 64 > dsExtent)
+		R.violation("C06:extent:dataset-item-count-exceeds-allocated-bytes", "{\"items\":" + std::to_string(randomx_dataset_item_count()) + ",\"allocated\":" + std::to_string(dsExtent) + "}");
 	ip::enableGuards(args.num("guards", 1) != 0); // --guards 0: for runs under valgrind memcheck (it keeps its own shadow of every byte)
 	ip::setGarbageSeed(args.num("guards", 1) ? args.seed + 17 : 0);
-	ProgFixture fx(args.seed * 57 + args.shard);
+	ProgFixture fx(args.seed * 57 + args.shard, true, dsExtent);
 	for (const char* f : { "programs_run_interpreter", "programs_run_jit", "code_area_integrity_checks", "maxlen_light_v2_softaes", "dataset_offset_max_configs", "edge:scratchpad_first_line", "edge:scratchpad_last_line", "edge:dataset_last_item",
 		"edge:L1_last_qword", "edge:L2_last_qword", "edge:L3_last_qword", "edge:store_at_level_end", "placements_single", "placements_batch", "input_len_0", "mode_light", "mode_full", "secure_jit_runs" }) R.floorKey(f);
 	alignas(64) uint8_t prog[pg::PROG_BYTES];
